@@ -276,9 +276,17 @@ def classifyZSet (c : Ctx) (s : State) (cmd : List Bytes) : Option String :=
     | some (.panic _) => true
     | _ => false
   let optsHave (from_ : Nat) (w : Bytes) : Bool := (cmd.drop from_).any fun t => isAscii t && eqFold t w
+  -- classes of repaired handlers whose input shape is shared with other classes are tied to the handler still doing
+  -- what the class describes (like `modelPanics`): repaired, they stop occurring instead of shadowing the classes below
+  let modelErrIs (m : Bytes) : Bool := match (step c s cmd).map (·.2) with
+    | some (Outcome.done (Res.err e)) => e == m
+    | _ => false
+  let modelRankAlone : Bool := match (step c s cmd).map (·.2) with
+    | some (Outcome.done (Res.ok r)) => (arrHdr 1).isPrefixOf r
+    | _ => false
   if n == b "zadd" && cmd.length ≥ 4 then
     let (f, rest) := Spec.zaddFlags (cmd.drop 2) {}
-    if (Spec.scoreArg key).isSome then some "zadd-numeric-key-rejected" else
+    if (Spec.scoreArg key).isSome && modelErrIs (b "score/member pairs must be float/string") then some "zadd-numeric-key-rejected" else
     match Spec.zaddPairs rest with
     | .bad =>
       -- a later score that is not a number is skipped together with its member
@@ -319,7 +327,7 @@ def classifyZSet (c : Ctx) (s : State) (cmd : List Bytes) : Option String :=
   else if (n == b "zinter" || n == b "zunion" || n == b "zinterstore" || n == b "zunionstore") && modelPanics then
     some "zcombine-trailing-aggregate-panics"
   else if (n == b "zinterstore" || n == b "zunionstore") && (cmd.drop 2).contains key then some "zstore-destination-dropped-from-operands"
-  else if n == b "zinterstore" && cmd.length ≥ 3 && zinterstoreKeyFuncErr cmd then some "zinterstore-options-need-two-keys"
+  else if n == b "zinterstore" && cmd.length ≥ 3 && zstoreKeyFuncErr cmd then some "zinterstore-options-need-two-keys"
   else if n == b "zunionstore" && cmd.length ≥ 3 && !Spec.isCombineWord key && ((cmd.drop 2).takeWhile fun t => !Spec.isCombineWord t).isEmpty then
     some "zunionstore-without-source-keys-accepted"
   else if (n == b "zinterstore" || n == b "zdiffstore") && (match zs with
@@ -388,7 +396,7 @@ def classifyZSet (c : Ctx) (s : State) (cmd : List Bytes) : Option String :=
   else if (n == b "zrank" || n == b "zrevrank") && cmd.length == 4 && isAscii (cmd.getD 3 []) && eqFold (cmd.getD 3 []) (b "withscore") &&
       (match zs with
        | some ms => (ms.get (cmd.getD 2 [])).isSome
-       | none => false) then some "zrank-withscore-option-ignored"
+       | none => false) && modelRankAlone then some "zrank-withscore-option-ignored"
   else if (n == b "zrank" || n == b "zrevrank") && cmd.length ≥ 3 then
     match zs with
     | some ms => (match ms.get (cmd.getD 2 []) with
